@@ -508,3 +508,38 @@ def rewrite_tree(root, old, new):
     changed = {k: v for k, v in new.items() if k not in old or old[k] != v}
     if changed:
         write_tree(root, changed)
+
+
+# ---------------------------------------------------------------------------------------------------------------------------
+# AIMED SMALL TREES: structural shapes that earlier seeded regressions needed and that must not depend on the luck of the random
+# generator (after round 7 the new name groups shifted the random streams and four old seeds were no longer met in the quick
+# tier).  Every end-to-end search of the creators runs all of them, through every creator of its property.
+AIMED0 = 50000        # end-to-end case numbers AIMED0 + j are these trees (below the payloads at scale, which start at 100000)
+
+
+def aimed_small(j, rng, pl):
+    """aimed tree number j (j % N_AIMED): (tree, classes)"""
+    k = j % N_AIMED
+    if k == 0:
+        return {("only.bin",): rng.randbytes(pl + 5)}, {"aimed: directory holding exactly one file"}
+    if k == 1:
+        return {("sub", "deep", "x.bin"): rng.randbytes(2 * pl + 1)}, {"aimed: directory holding exactly one file, nested"}
+    if k == 2:
+        return {("a",): b"", ("d", "b"): b"", ("d", "c"): b""}, {"aimed: every file is empty"}
+    if k == 3:
+        d = rng.choice(["d", "Show", "a"])
+        return {(d, "f1"): rng.randbytes(pl + 1), (d, "f2"): rng.randbytes(7), (d + ".x",): rng.randbytes(pl + 3),
+                (d + "-1",): rng.randbytes(5)}, {"aimed: directory beside later siblings whose names extend its name",
+                                                 "full-path order != per-directory order"}
+    if k == 4:
+        return {("a",): rng.randbytes(pl), ("m",): rng.randbytes(3), ("z",): b"", ("zz",): b""}, \
+            {"aimed: trailing empty files after data that does not end on a piece boundary"}
+    if k == 5:
+        return {("a",): rng.randbytes(2 * pl), ("z",): b""}, {"aimed: trailing empty file after data ending on a piece boundary"}
+    if k == 6:
+        return {("x", "one"): rng.randbytes(pl + 9), ("y", "two"): rng.randbytes(100), ("x", "three"): rng.randbytes(pl - 1)}, \
+            {"aimed: two directories with interleaving files"}
+    return {("big.bin",): rng.randbytes(3 * pl + 17), ("small.txt",): rng.randbytes(12)}, {"aimed: one multi-piece file and one small file"}
+
+
+N_AIMED = 8
